@@ -142,7 +142,7 @@ class Outcome:
 
 def copyval(v):
     if isinstance(v, AAgg):
-        return AAgg(v.ty, [copyval(f) for f in v.fields], v.variant)
+        return AAgg(v.ty, [copyval(f) for f in v.fields], v.variant, v.origin)
     return v
 
 
@@ -159,6 +159,7 @@ class Interp:
         self.assumed = []
         self.trace = []
         self.events = []       # observer events (calls with abstract args etc.)
+        self.tables = {}       # origin path -> literal table contents (R4)
         self.call_observer = None
         self.assert_observer = None
 
@@ -314,7 +315,11 @@ class Interp:
                 return ARef(fr, 0, [])
             return ATop(tykey)
         if 'bytes' in c:
-            return self.decode_bytes(tykey, bytes.fromhex(c['bytes']), c.get('off', 0), genv)
+            v = self.decode_bytes(tykey, bytes.fromhex(c['bytes']), c.get('off', 0), genv)
+            if isinstance(v, AAgg) and c.get('origin') and c.get('promoted', -1) < 0:
+                v.origin = c['origin']
+                self.tables[c['origin']] = [f.uval() if isinstance(f, AInt) else None for f in v.fields]
+            return v
         if 'slice' in c:
             return ATop(tykey)
         if 'uneval' in c:
@@ -451,6 +456,8 @@ class Interp:
             for k in range(lo, hi + 1):
                 x = v.fields[k]
                 r = x if r is None else self.join_values(r, x)
+            if v.origin and i.term is not None and isinstance(r, AInt):
+                r = r.with_term(('index', v.origin, i.term))
             return r
         return ATop('?')
 
